@@ -130,7 +130,7 @@ def clause_gates(R, long_probes=True):
     def obs(evn, **kw):
         if ctx.quiet:
             return
-        if evn == "branch" and kw["frame"].inst is ng:
+        if evn == "branch" and (kw["frame"].inst is ng or kw["frame"].inst.name.startswith("falcon_rust::math::")):
             p = kw["st"].prov.get(kw["discr"].vid)
             if p and p[0] == "fcmp":
                 fc.append(p[2])
@@ -192,6 +192,9 @@ def clause_gates(R, long_probes=True):
                         same = sv_.get(x.vid) == lab                                   # the solver's own value (its range refined at most)
                         srcv = p[1][0] if p and p[1] else None
                         one_cast = bool(p) and p[0] in ("truncast", "wrapcast") and sv_.get(srcv) == lab and itv == (-32768, 32767)
+                        import os
+                        if os.environ.get("DBG_NARROW"):
+                            print("narrow", nm, i, x.vid, itv, p, "src", srcv, sv_.get(srcv), "same", same)
                         if not (same or one_cast):
                             okn, whyn = False, f"{nm}[{i}] reaches the result as a value in {itv} computed by {p[0] if p else 'other arithmetic'}: not the solver's coefficient after one 16-bit cast"
             R.check(okn, "C04-narrow", "ntru_gen result: F, G", "each returned coefficient of F, G is the solver's coefficient after at most one cast to the 16-bit element type (no detour through a narrower type, no clamping)",
@@ -202,7 +205,7 @@ def clause_gates(R, long_probes=True):
         # that a gate which gives way after N rejections ("termination safeguard") is seen for every N up to 1100
         cfg["gen_max"] = 6 if (want or not long_probes) else 2200
         ctx.path_budget, saved_pb = 10 ** 8, ctx.path_budget
-        ctx.path_mode_fns = (lambda inst: inst is ng) if not want else None
+        ctx.path_mode_fns = (lambda inst: inst is ng or (inst.local and inst.name.startswith("falcon_rust::math::ntru_gen"))) if not want else None
         outs, cl = go(("nz", "nz"), gamma)
         ctx.path_mode_fns, ctx.path_budget = None, saved_pb
         cfg["gen_max"] = 6
